@@ -236,7 +236,8 @@ Definition cached_len (l : list entry) (f b o : Z) : option nat :=
   match find (fun e => addr_match e f b o) l with Some e => Some (length (e_data e)) | None => None end.
 
 (* one event: the new state, and whether the callers kept the discipline at this event:
-   - SET passes exactly the bytes the ideal store holds at that address, of the length already cached there;
+   - SET (on a slot in use) passes exactly the bytes the ideal store holds at that address, of the length
+     already cached there;
    - GET asks for the cached length and never HITS an address whose bytes were overwritten since the entry was
      set (every write path must SET or DEL the entry it overwrites on disk before anybody looks it up again);
    - a file slot is taken only when no entry of that slot is left (ADFI_close_file ends with CLEAR_STK). *)
@@ -253,7 +254,7 @@ Definition tstep (t : tst) (e : tev) : tst * bool :=
       match q with
       | SSet f b o ty data =>
           (mkT s' (t_store t) (untaint (t_taint t) (f, b, o)),
-           valid_sop q && (0 <=? f) && (0 <=? b) && (0 <=? o) &&
+           u && valid_sop q && (0 <=? f) && (0 <=? b) && (0 <=? o) &&
            bytes_eqb data (bs_get (t_store t) f (b * BLK + o) (length data)) &&
            match cached_len (stk (t_stk t)) f b o with Some n => (n =? length data)%nat | None => true end)
       | SGet f b o ty len =>
